@@ -57,6 +57,8 @@ def challenge (pre : List Item) (pub prf : Rec) : Except String (Option Nat) := 
   return o.map sampleScalar
 
 def verify (pre : List Item) (pub prf : Rec) : Verdict := do
+  -- every field is needed below: a proof with a missing field is not valid
+  if nilCommitment prf || prf.anyNil ["Z1", "Z2", "A", "B", "C"] then return false
   let A ← needPt prf "A"
   let B ← needPt prf "B"
   let C ← needPt prf "C"
@@ -89,6 +91,8 @@ def challenge (pre : List Item) (pub prf : Rec) : Except String (Option Nat) := 
   return o.map sampleScalar
 
 def verify (pre : List Item) (pub prf : Rec) : Verdict := do
+  -- every field is needed below: a proof with a missing field is not valid
+  if nilCommitment prf || prf.anyNil ["Z", "U", "A", "N", "B"] then return false
   let A ← needPt prf "A"
   let N ← needPt prf "N"
   let B ← needPt prf "B"
